@@ -505,3 +505,120 @@ B('c13-benign-local-accumulators', 'C13', SF,
   '''        items = list()
         setattr(pkt, self.field_name, items)
         sequence = items''')
+
+# =========================================================================== C16
+S('c16-in-place-write', 'C16', CG,
+  '''            with open(tmp_pathname, 'w') as module_file:
+                module_file.write(source)
+            os.replace(tmp_pathname, module_pathname)''',
+  '''            with open(module_pathname, 'w') as module_file:
+                module_file.write(source)''', 'R10-atomic-publish')
+S('c16-handler-narrowed', 'C16', CG,
+  '''            except Exception:
+                module = None
+
+        # If no previously''',
+  '''            except (ImportError, OSError):
+                module = None
+
+        # If no previously''', 'R10-tolerant-load')
+S('c16-reload-from-disk', 'C16', CG,
+  '''            module = types.ModuleType(module_name)
+            module.__file__ = module_pathname
+            exec(compile(source, module_pathname, 'exec'), module.__dict__)''',
+  '''            module = SourceFileLoader(module_name,
+                                      module_pathname).load_module()''', 'R10-validate-before-install')
+S('c16-makedirs-racy', 'C16', CG,
+  '''            os.makedirs(folder, exist_ok=True)''',
+  '''            if not os.path.isdir(folder):
+                os.makedirs(folder)''', 'R10-race-tolerant-fs')
+S('c16-remove-racy', 'C16', CG,
+  '''            try:
+                os.remove(cache_from_source(module_pathname))
+            except OSError:
+                pass''',
+  '''            if os.path.exists(cache_from_source(module_pathname)):
+                os.remove(cache_from_source(module_pathname))''', 'R10-race-tolerant-fs')
+S('c16-never-verified', 'C16', CG,
+  '''        if not module or getattr(
+            module, 'BISTURI_PACKET_COOKIE', None
+        ) != cookie:''',
+  '''        if not module:''', 'R10-validate-before-install')
+S('c16-tmp-not-replaced', 'C16', CG,
+  '''            os.replace(tmp_pathname, module_pathname)''',
+  '''            with open(module_pathname, 'w') as final_file:
+                with open(tmp_pathname) as tmp_file:
+                    final_file.write(tmp_file.read())
+            os.remove(tmp_pathname)''', 'R10-atomic-publish')
+B('c16-benign-rename', 'C16', CG,
+  '''            tmp_pathname = "%s.%i-%i.tmp" % (
+                module_pathname, os.getpid(), threading.get_ident()
+            )
+            with open(tmp_pathname, 'w') as module_file:
+                module_file.write(source)
+            os.replace(tmp_pathname, module_pathname)''',
+  '''            scratch = f"{module_pathname}.{os.getpid()}-{threading.get_ident()}.tmp"
+            with open(scratch, mode='w') as out:
+                out.write(source)
+            os.rename(scratch, module_pathname)''')
+B('c16-benign-bare-except', 'C16', CG,
+  '''            except Exception:
+                module = None
+
+        # If no previously''',
+  '''            except BaseException:
+                pass
+
+        # If no previously''')
+
+# =========================================================================== C15
+S('c15-hash-only-pack', 'C15', CG,
+  '''        cookie_hash.update(pack_code.encode('utf-8'))
+        cookie_hash.update(unpack_code.encode('utf-8'))''',
+  '''        cookie_hash.update(pack_code.encode('utf-8'))''', 'R10-hash-covers-text')
+S('c15-unhashed-line', 'C15', CG,
+  '''            source = import_code + cookie_code + pack_code + unpack_code''',
+  '''            source = import_code + cookie_code + pack_code + unpack_code + (
+                "\\nGENERATED_FOR = %r\\n" % self.pkt_class.__name__
+            )''', 'R10-hash-covers-text')
+S('c15-cookie-name-mismatch', 'C15', CG,
+  '''        cookie_code = f"BISTURI_PACKET_COOKIE = '{cookie}'\\n"''',
+  '''        cookie_code = f"BISTURI_COOKIE = '{cookie}'\\n"''', 'R10-cookie-line')
+S('c15-compare-size-not-cookie', 'C15', CG,
+  '''        if not module or getattr(
+            module, 'BISTURI_PACKET_COOKIE', None
+        ) != cookie:''',
+  '''        if not module or getattr(
+            module, 'BISTURI_PACKET_COOKIE', None
+        ) is None:''', 'R10-validate-before-install')
+S('c15-reload-unverified', 'C15', CG,
+  '''            module = types.ModuleType(module_name)
+            module.__file__ = module_pathname
+            exec(compile(source, module_pathname, 'exec'), module.__dict__)''',
+  '''            module = SourceFileLoader(module_name,
+                                      module_pathname).load_module()''', 'R10-validate-before-install')
+S('c15-bogus-pyc-path', 'C15', CG,
+  '''                os.remove(cache_from_source(module_pathname))''',
+  '''                os.remove(module_name + ".pyc")''', 'R10-bytecode-path')
+S('c15-template-uses-global', 'C15', CG,
+  '''name, _, pack, _ = fields[%(field_index)i]
+pack(pkt=pkt, fragments=fragments, **k)''',
+  '''name, _, pack, _ = fields[%(field_index)i]
+pack(pkt=pkt, fragments=fragments, **dict(k, **PACK_OPTIONS))''', 'R10-generated-code-closed')
+S('c15-exec-stale-text', 'C15', CG,
+  '''            exec(compile(source, module_pathname, 'exec'), module.__dict__)''',
+  '''            exec(compile(open(module_pathname).read(), module_pathname, 'exec'), module.__dict__)''', 'R10-validate-before-install')
+B('c15-benign-join', 'C15', CG,
+  '''            source = import_code + cookie_code + pack_code + unpack_code''',
+  '''            source = "".join([import_code, cookie_code, pack_code, unpack_code])''')
+B('c15-benign-hash-one-update', 'C15', CG,
+  '''        cookie_hash = hashlib.sha1()
+        cookie_hash.update(pack_code.encode('utf-8'))
+        cookie_hash.update(unpack_code.encode('utf-8'))
+        cookie = cookie_hash.hexdigest()''',
+  '''        digest = hashlib.sha256()
+        for text in (pack_code, unpack_code):
+            pass
+        digest.update(pack_code.encode())
+        digest.update(unpack_code.encode())
+        cookie = digest.hexdigest()''')
